@@ -20,7 +20,18 @@ def run(tier, rep):
         wcfg = [w for w in wcfg if ' '.join(w.split()[:4]) in keep]
     res2, d2 = dxlib.run_dx('plain', wcfg, 'c03w', 'A,B1' if tier == 'quick' else 'A,B1', 'ref,inv', api='generator', deadline=deadline)
     acc2 = [r for r in res2 if 'crashed' in r or r['port_err'] == 0]
-    c01.aggregate(rep, acc + acc2, False, ('c03',), 'generator',
+    # the edge coverage again under squeezed default streams (every unforced deviate of the generation stage in a sub-interval
+    # of (0,1)): energy sums and windows are then probed with all leptons / all cascade choices pushed to the same side
+    squeezes = ['0.33,0.67'] if tier == 'quick' else dxlib.SQUEEZES
+    acc3 = []
+    for sq in squeezes:
+        rs, ds = dxlib.run_dx('plain', c02.grid() + (wcfg if tier != 'quick' else [w for i, w in enumerate(wcfg) if i % 4 == 0]), 'c03s', 'A', 'ref,inv', api='generator', deadline=deadline,
+                              extra=['--squeeze', sq, '--horizon', '30000'])
+        for r in rs:
+            r['squeeze_pass'] = sq
+        acc3 += [r for r in rs if 'crashed' in r or r['port_err'] == 0]
+    rep.coverage['squeezed_default_streams'] = list(squeezes)
+    c01.aggregate(rep, acc + acc2 + acc3, False, ('c03',), 'generator',
                   'every accepted (isotope, level, mode) of the complete grid plus nested window chains [0,e0+] > [0.2,0.9]e0 > [0.4,0.7]e0 > [0.5,0.6]e0 and the one-sided windows [0.5e0,-], [-,0.5e0] on '
                   'every window-capable configuration, driven through decay0_generator; layers %s; on every execution: visible energy vs Q '
                   '(equal within 3 keV for neutrinoless modes, never above otherwise; primary particles only for the four alpha-chain entries), '
